@@ -692,12 +692,12 @@ func (h *H) actLead(l int) {
 		return
 	}
 	won := false
-	for k := 0; k < 40 && !won; k++ {
+	for k := 0; k < 600 && !won; k++ { // ticks are logical time; more of them only mean more campaigns
 		if err := h.cl.tickNode(l, 1); err != nil {
 			h.fail("%v", err)
 			return
 		}
-		won = waitFor(3*time.Millisecond, func() bool {
+		won = waitFor(5*time.Millisecond, func() bool {
 			st := h.cl.nodes[l].rn.VerifStatus()
 			return st.RaftState == raft.StateLeader
 		})
